@@ -296,6 +296,35 @@ pub fn build_cases(base: &SlotCfg, r: &mut Rng) -> Vec<BuildCase> {
             out.push(BuildCase { label: format!("{name} axis: {keep} points, declared minimum {}", cfg.probe_min), cfg: c, valid: false });
         }
     }
+    // simultaneous violations: the damaged x axis of one row with the damaged y axis (2-D) or the
+    // truncated data (fewer points than the declared minimum) of another
+    let invalid: Vec<BuildCase> = out.iter().filter(|c| !c.valid).cloned().collect();
+    let is_x = |c: &BuildCase| c.label.starts_with("x axis") && !c.label.contains("declared minimum");
+    let is_y = |c: &BuildCase| c.label.starts_with("y axis") && !c.label.contains("declared minimum");
+    let is_min = |c: &BuildCase| c.label.contains("declared minimum");
+    let xs: Vec<&BuildCase> = invalid.iter().filter(|c| is_x(c)).collect();
+    let ys: Vec<&BuildCase> = invalid.iter().filter(|c| is_y(c)).collect();
+    let mins: Vec<&BuildCase> = invalid.iter().filter(|c| is_min(c)).collect();
+    for _ in 0..6 {
+        if !xs.is_empty() && !ys.is_empty() && r.chance(1, 2) {
+            let (a, b) = (*r.pick(&xs), *r.pick(&ys));
+            let mut c = a.cfg.clone();
+            c.y = b.cfg.y.clone();
+            out.push(BuildCase { label: format!("{} + {}", a.label, b.label), cfg: c, valid: false });
+        } else if !xs.is_empty() && !mins.is_empty() {
+            let (a, b) = (*r.pick(&xs), *r.pick(&mins));
+            // truncated data of b, damaged x axis of a (the other axis as in b)
+            let mut c = b.cfg.clone();
+            if b.label.starts_with("y axis") || !cfg.kind.is_2d() {
+                c.x = a.cfg.x.clone();
+            }
+            if !cfg.kind.is_2d() {
+                // keep the x damage but not the length fix-up of b
+                c.x = a.cfg.x.clone();
+            }
+            out.push(BuildCase { label: format!("{} + {}", a.label, b.label), cfg: c, valid: false });
+        }
+    }
     if cfg.dimty == DimTy::IxDyn {
         // too few dimensions for the interpolator
         let mut c = cfg.clone();
